@@ -441,6 +441,12 @@ func runProperty(plan *PropertyPlan, tier string, seed uint64, par int, scale fl
 	start := time.Now()
 	defer os.RemoveAll(scratchDir())
 	known := loadKnown()
+	// replay files of earlier runs of this property are stale now
+	if old, err := filepath.Glob(filepath.Join(verifDir, "replays", plan.ID+"-*.json")); err == nil {
+		for _, f := range old {
+			_ = os.Remove(f)
+		}
+	}
 	bins := map[bool]string{}
 	var all []runOut
 	famRuns := map[string]int{}
